@@ -979,6 +979,7 @@ func (tx *Transaction) WriteRequestBody(b []byte) (*types.Interruption, int, err
 		}
 	}
 
+	tx.requestBodyBuffer.followLimit(tx.RequestBodyLimit, false)
 	w, err := tx.requestBodyBuffer.Write(b[:writingBytes])
 	if err != nil {
 		return nil, 0, err
@@ -1047,6 +1048,7 @@ func (tx *Transaction) ReadRequestBodyFrom(r io.Reader) (*types.Interruption, in
 		writingBytes = tx.RequestBodyLimit - tx.requestBodyBuffer.length
 	}
 
+	tx.requestBodyBuffer.followLimit(tx.RequestBodyLimit, false)
 	w, err := io.CopyN(tx.requestBodyBuffer, r, writingBytes)
 	if err != nil && err != io.EOF {
 		return nil, int(w), err
@@ -1252,6 +1254,7 @@ func (tx *Transaction) WriteResponseBody(b []byte) (*types.Interruption, int, er
 			runProcessResponseBody = true
 		}
 	}
+	tx.responseBodyBuffer.followLimit(tx.ResponseBodyLimit, true)
 	w, err := tx.responseBodyBuffer.Write(b[:writingBytes])
 	if err != nil {
 		return nil, 0, err
@@ -1306,6 +1309,7 @@ func (tx *Transaction) ReadResponseBodyFrom(r io.Reader) (*types.Interruption, i
 		writingBytes = tx.ResponseBodyLimit - tx.responseBodyBuffer.length
 	}
 
+	tx.responseBodyBuffer.followLimit(tx.ResponseBodyLimit, true)
 	w, err := io.CopyN(tx.responseBodyBuffer, r, writingBytes)
 	if err != nil && err != io.EOF {
 		return nil, int(w), err
